@@ -91,11 +91,33 @@ func (c01) Run(t *tape.Tape, tier Tier) *Result {
 		sim.Send(0, 1, []int{0}, route, m1)
 	}
 	m1eqm2, m1nem2 := 0, 0
+	// what each flow carries; a relay that wraps what it received before
+	// passing it on starts a new flow with the wrapped value as its origin
+	wants := map[int][]obs.Node{0: want, 1: want}
+	nextFlow := 2
 	sim.OnDeliver = func(d *world.Delivery) {
 		where := fmt.Sprintf("flow %d hop %d at process %d via %s", d.Msg.Flow, d.Msg.Hop, d.Proc.ID, routeString(d.Msg.Path))
+		want := wants[d.Msg.Flow]
 		if d.Panic != "" {
 			res.add(Violation{Prop: "C01", Oracle: "decode", Culprit: typeOfLayer(want[0]), Expected: "decoded error", Observed: d.Panic, Where: where})
 			return
+		}
+		if d.Forward && nextFlow < 5 && t.Bool(1, 6) {
+			// the relay annotates the error: decoded layers inside, live ones outside
+			over := g.Over(1 + t.Draw(3))
+			gen.GivenErr = d.Err
+			e2 := gen.Build(over)
+			gen.GivenErr = nil
+			if data, p := obs.Encode(e2); p == "" {
+				wants[nextFlow] = obs.Tree(e2, false)
+				sim.Stats.Faults["rewrapped-at-relay"]++
+				res.Desc.Tree += fmt.Sprintf(" ; relay %d wraps flow %d as flow %d: %s", d.Proc.ID, d.Msg.Flow, nextFlow, over.Expr())
+				sim.Send(nextFlow, 1, d.Msg.Path[:len(d.Msg.Path)-1], append([]int{d.Proc.ID}, d.Msg.Route...), data)
+				// (delivered first to the relay itself: a loop-back hop)
+				nextFlow++
+			} else {
+				res.add(Violation{Prop: "C01", Oracle: "encode-at-relay", Culprit: obs.PanicSite(p), Expected: "no panic", Observed: short(p), Where: where})
+			}
 		}
 		got := obs.Tree(d.Err, false)
 		sim.Logf("obs %s", obs.Shape(got))
